@@ -22,10 +22,13 @@ Inductive sexp :=
   | SCmp (op : string) (a b : sexp)        (* "<" "<=" ">" ">=" "==" "!=" "is" "isnot" *)
   | SBin (op : string) (a b : sexp)        (* "|" "&" "and" "or" *)
   | SInv (e : sexp)                        (* ~e / not e *)
-  | SCall (f : string) (a : sexp).         (* np.isnan(check_val) *)
+  | SCall (f : string) (a : sexp)          (* np.isnan(check_val), any(is_suspect) *)
+  | SSl (from1 : bool) (e : sexp).         (* e[1:] (from1 = true) / e[:-1] (from1 = false) *)
 
 Inductive sstep :=
   | SWhere (guards : list sexp) (cond : sexp) (f : flag)    (* flag_arr[cond] = f *)
+  | SWhereSl (guards : list sexp) (from1 : bool) (cond : sexp) (f : flag)
+                                                            (* flag_arr[1:][cond] = f / flag_arr[:-1][cond] = f *)
   | SAt (guards : list sexp) (idx : Z) (f : flag).          (* flag_arr[idx] = f, idx may be negative *)
 
 Record env := {
@@ -78,6 +81,8 @@ Fixpoint eval_b (en : env) (e : sexp) (i : nat) : bool :=
           | SAttr (SName _) _, SAttr (SName _) _ =>                         (* mask != mask *)
               if String.eqb op "!=" then xorb (eval_b en a i) (eval_b en b i)
               else if String.eqb op "==" then negb (xorb (eval_b en a i) (eval_b en b i)) else false
+          | _, SName t =>                                                   (* is_suspect == True *)
+              if (String.eqb op "==" && String.eqb t "True")%bool then eval_b en a i else false
           | _, _ => false
           end
       end
@@ -87,15 +92,22 @@ Fixpoint eval_b (en : env) (e : sexp) (i : nat) : bool :=
   | SInv a => negb (eval_b en a i)
   | SCall f a =>
       if String.eqb f "isnan" then match eval_arr en a i with Some x => is_none x | None => false end else false
+  | SSl from1 a =>                          (* element i of the slice: a[i+1] / a[i] (i below size-1) *)
+      if from1 then eval_b en a (S i) else (Nat.ltb (S i) (e_size en) && eval_b en a i)%bool
   | _ => false
   end.
 
-(* guard of an enclosing `if`: `x is not None`, `x is None`, `a.size > k`, `a and b` *)
+(* guard of an enclosing `if`: `x is not None`, `x is None`, `b is True`, `isnan(s[0])`, `a.size > k`, `a and b` *)
 Fixpoint eval_g (en : env) (e : sexp) : bool :=
   match e with
   | SCmp op a b =>
       if String.eqb op "isnot" then match eval_num en a with Some (Some _) => true | _ => false end
-      else if String.eqb op "is" then match eval_num en a with Some None => true | _ => false end
+      else if String.eqb op "is" then
+             match eval_num en a, eval_num en b with
+             | Some None, Some None => true
+             | Some (Some x), Some (Some y) => Qeqb x y     (* `flag is True`: booleans are bound to 1 / 0 *)
+             | _, _ => false
+             end
       else match a, b with
            | SAttr (SName _) f, SNum q =>
                if String.eqb f "size" then cmp_q op (inject_Z (Z.of_nat (e_size en))) q else false
@@ -105,6 +117,10 @@ Fixpoint eval_g (en : env) (e : sexp) : bool :=
       if String.eqb op "and" then (eval_g en a && eval_g en b)%bool
       else if String.eqb op "or" then (eval_g en a || eval_g en b)%bool else false
   | SInv a => negb (eval_g en a)
+  | SCall f a =>                                              (* isnan(valid_span[0]): an absent bound *)
+      if String.eqb f "isnan" then match eval_num en a with Some None => true | _ => false end
+      else if String.eqb f "any" then existsb (eval_b en a) (seq 0 (e_size en))      (* any(is_suspect) *)
+      else false
   | _ => false
   end.
 
@@ -118,6 +134,13 @@ Definition run_step (en : env) (acc : list flag) (s : sstep) : list flag :=
   match s with
   | SWhere gs c f =>
       if guards_hold en gs then set_where (tab (e_size en) (eval_b en c)) f acc else acc
+  | SWhereSl gs from1 c f =>
+      (* the slice is a view of size-1 elements: view element j is element j+1 (from1) / j of the array *)
+      if guards_hold en gs then
+        set_where (tab (e_size en) (fun i =>
+          if from1 then (negb (Nat.eqb i 0) && eval_b en c (i - 1))%bool
+          else (Nat.ltb (S i) (e_size en) && eval_b en c i)%bool)) f acc
+      else acc
   | SAt gs idx f =>
       if guards_hold en gs then set_at (py_index (e_size en) idx) f acc else acc
   end.
